@@ -160,6 +160,26 @@ def check(res, tier):
         ("alias-clash", {"main.ddp": H + 'Die Funktion a1 gibt eine Zahl zurück, macht:\n\tGib 1 zurück.\nUnd kann so benutzt werden:\n\t"gleicher alias"\n\nDie Funktion a2 gibt eine Zahl zurück, macht:\n\tGib 2 zurück.\nUnd kann so benutzt werden:\n\t"gleicher alias"\n'}),
         ("operator-overload-bad-arity", {"main.ddp": H + 'Die Funktion op1 mit dem Parameter a vom Typ Text, gibt einen Text zurück, macht:\n\tGib a zurück.\nUnd überlädt den "plus" Operator.\n'}),
         ("error-at-last-token", {"main.ddp": H + "Die Zahl z ist"}),
+        # diagnostics whose range touches the end of the file, with and without a final line break, LF and CRLF
+        ("eof:missing-value-then-newline", {"main.ddp": H + "Die Zahl z ist\n"}),
+        ("eof:missing-dot-then-newline", {"main.ddp": H + "Die Zahl z ist 1.\nSchreibe z\n"}),
+        ("eof:missing-dot-no-newline", {"main.ddp": H + "Die Zahl z ist 1.\nSchreibe z"}),
+        ("eof:missing-dot-two-newlines", {"main.ddp": H + "Die Zahl z ist 1.\nSchreibe z\n\n"}),
+        ("eof:type-error-and-missing-dot", {"main.ddp": H + 'Die Zahl z ist "a".\nSchreibe z\n'}),
+        ("eof:open-text-then-newline", {"main.ddp": H + 'Schreibe "offen\n'}),
+        ("eof:open-text-no-newline", {"main.ddp": H + 'Schreibe "offen'}),
+        ("eof:backslash-at-end", {"main.ddp": H + 'Schreibe "ab\\'}),
+        ("eof:open-char", {"main.ddp": H + "Der Buchstabe b ist 'x\n"}),
+        ("eof:open-comment-then-newline", {"main.ddp": H + "Die Zahl z ist 1.\n[ offen\n"}),
+        ("eof:open-block", {"main.ddp": H + "Wenn wahr, dann:\n"}),
+        ("eof:open-function", {"main.ddp": H + "Die Funktion f gibt nichts zurück, macht:\n\tSchreibe 1.\n"}),
+        ("eof:crlf", {"main.ddp": (H + 'Die Zahl z ist "a".\nSchreibe z\n').replace("\n", "\r\n")}),
+        ("eof:empty-file-with-newline", {"main.ddp": "\n"}),
+        ("eof:only-open-paren", {"main.ddp": H + "Die Zahl z ist (\n"}),
+        ("alias-text:open-parameter", {"main.ddp": H + 'Die Funktion f mit dem Parameter a vom Typ Zahl, gibt nichts zurück, macht:\n\tSchreibe a.\nUnd kann so benutzt werden:\n\t"foo <a"\n'}),
+        ("alias-text:unknown-parameter", {"main.ddp": H + 'Die Funktion f mit dem Parameter a vom Typ Zahl, gibt nichts zurück, macht:\n\tSchreibe a.\nUnd kann so benutzt werden:\n\t"foo <b>"\n'}),
+        ("alias-text:bad-escape", {"main.ddp": H + 'Die Funktion f mit dem Parameter a vom Typ Zahl, gibt nichts zurück, macht:\n\tSchreibe a.\nUnd kann so benutzt werden:\n\t"foo \\q <a>"\n'}),
+        ("alias-text:empty", {"main.ddp": H + 'Die Funktion f mit dem Parameter a vom Typ Zahl, gibt nichts zurück, macht:\n\tSchreibe a.\nUnd kann so benutzt werden:\n\t""\n'}),
         ("error-at-first-token", {"main.ddp": ". Die Zahl z ist 1.\n"}),
         ("error-inside-alias-string", {"main.ddp": H + 'Die Funktion a3 mit dem Parameter p vom Typ Zahl, gibt eine Zahl zurück, macht:\n\tGib p zurück.\nUnd kann so benutzt werden:\n\t"nimm <q> statt p"\n'}),
     ]
